@@ -2524,7 +2524,13 @@ tibupNever(Stab stab, AbSyn absyn, TForm type)
 local void
 tibupIterate(Stab stab, AbSyn absyn, TForm type)
 {
-	abTPoss(absyn) = tpossSingleton(tfExit);
+	if (tloopBreakCount == -1) {
+		/* Not inside a loop: reject, as for a stray `break'. */
+		abState(absyn) = AB_State_Error;
+		abTPoss(absyn) = tpossEmpty();
+	}
+	else
+		abTPoss(absyn) = tpossSingleton(tfExit);
 }
 
 /***************************************************************************
